@@ -113,7 +113,7 @@ def build_variant(root, variant, pool):
         o = os.path.join(obj, "eng_" + s[:-2] + ".o")
         eobjs[s] = o
         cf = list(v["cflags"])
-        if s == "sched.c":
+        if s == "vsched.c":
             cf = [c for c in cf if not c.startswith("-fsanitize") and not c.startswith("-fno-sanitize")]
         ejobs.append([v["cc"]] + cf + DEFS + inc + ["-Wall", "-c", os.path.join(VERIF, "engine", s), "-o", o])
     list(pool.map(run, ejobs))
